@@ -162,6 +162,7 @@ def build(cfg):
     env.db = db
     env.Aux = Aux
     env.aux_next = 1
+    env.pool, env.prev_pool, env.keep = {}, {}, False
     env.entities = {'P': P, 'D': D, 'SD': SD, 'T': T}
     env.attrs = {}
     env.rule_objs = []
@@ -247,8 +248,22 @@ def _user(env, cfg, ui):
     if u['kind'] == 'none':
         return None
     if u['kind'] == 'entity':
-        return env.entities['P'][u['person'] + 1]
+        return _instance(env, 'P:%d' % (u['person'] + 1))
     return env.plain[ui]
+
+
+def _instance(env, okey):
+    '''the entity instance for okey: fetched in the current db_session, or -- in a session run with keep=True -- the very
+    instance the previous db_session worked with (users and objects alike, so that `user is obj` keeps its meaning)'''
+    obj = env.pool.get(okey)
+    if obj is None:
+        if env.keep and okey in env.prev_pool:
+            obj = env.prev_pool[okey]
+        else:
+            e, n = okey.split(':')
+            obj = env.entities[e][int(n)]
+        env.pool[okey] = obj
+    return obj
 
 
 def _target(env, target):
@@ -257,8 +272,7 @@ def _target(env, target):
         return env.entities[name]
     if kind == 'A':
         return env.attrs[name]
-    e, n = name.split(':')
-    return env.entities[e][int(n)]
+    return _instance(env, name)
 
 
 def _ask(env, cfg, ui, fn, target):
@@ -277,16 +291,19 @@ class _BodyError(Exception):
     pass
 
 
-def _session(env, body, end=None):
+def _session(env, body, end=None, keep=False):
     """run body() inside one db_session and leave the session the way `end` says:
     normal / None  -- the block is left normally (commit);
     commit_error   -- an object with a duplicate unique key is pending, so the commit made on leaving the block fails;
     body_error     -- an exception is raised inside the block (with a pending insert): rollback path;
     flush_error    -- flush() of a duplicate unique key fails inside the block: rollback path;
-    rollback_call  -- rollback() is called inside the block, which is then left normally."""
+    rollback_call  -- rollback() is called inside the block, which is then left normally.
+    keep=True: permission questions in this session are asked about the entity instances (objects and entity users) that
+    the previous session loaded, not about freshly fetched ones."""
     from pony.orm import db_session, rollback, flush
     from pony.orm import core
     commit_errors = (core.TransactionIntegrityError, core.IntegrityError, core.CommitException)
+    env.prev_pool, env.pool, env.keep = env.pool, {}, keep
     try:
         with db_session:
             body()
@@ -433,8 +450,10 @@ def evaluate(cfg, report, count=None):
             eref = M.Ref(ecfg)
             CUR['cfg'] = ecfg                                         # the getters now serve the new tables
             ended = epochs[e - 1]['end']
+            kept = bool(epochs[e - 1].get('keep'))
             history = ('[epoch %d: the previous db_session of this thread asked the same questions and ended with %s; '
-                       'the getters then started to return new groups / roles / labels] ' % (e, ended))
+                       'the getters then started to return new groups / roles / labels%s] '
+                       % (e, ended, '; the entity instances loaded by that session are asked about again' if kept else ''))
             efirst = {}
             ejudge = make_judge(eref, ecfg, efirst, e, history)
             eh = tables_hash(ecfg) if count is not None else None
@@ -446,12 +465,13 @@ def evaluate(cfg, report, count=None):
                     ejudge(k, got, 1)
                     efirst[k] = got
                     if count is not None and fn in M.PERMS:
-                        extra = ['history:after_' + ended]
+                        extra = ['history:after_' + ended] + (['history:kept_instances'] if kept else [])
                         if eref.bounds(ui, fn, t) != prev_ref.bounds(ui, fn, t):
                             extra.append('history:answer_changed_after_' + ended)
                         count_decision(eref, ecfg, eh, k, got, extra)
-                _to_json_checks(env, ecfg, eref, report, count, e)
-            _session(env, session_e, next_end(e))
+                if not kept:
+                    _to_json_checks(env, ecfg, eref, report, count, e)   # to_json wants objects of the current session
+            _session(env, session_e, next_end(e), keep=kept)
             prev_ref = eref
     finally:
         set_current_user(None)
@@ -615,7 +635,7 @@ def configs():
         # later epochs: how the previous db_session ends, and the tables the getters serve from then on
         epochs = []
         for _ in range(draw(st.integers(0, 2))):
-            ep = {'end': draw(st.sampled_from(M.END_MODES + ['commit_error'])),
+            ep = {'end': draw(st.sampled_from(M.END_MODES + ['commit_error'])), 'keep': draw(st.booleans()),
                   'g': [[draw(names_shape(M.GROUPS, 3)), draw(names_shape(M.GROUPS, 2))] for _u in cfg['users']],
                   'roles1': {}, 'labels1': {}}
             for ui, u in enumerate(cfg['users']):
